@@ -285,6 +285,7 @@ func (d *Dialer) connect(ctx context.Context, network, address string, connCfg C
 	if d.SASLMechanism != nil {
 		host, port, err := splitHostPortNumber(address)
 		if err != nil {
+			_ = conn.Close()
 			return nil, fmt.Errorf("could not determine host/port for SASL authentication: %w", err)
 		}
 		metadata := &sasl.Metadata{
